@@ -1,4 +1,4 @@
-CONSTANTS MaxArity = 3 Len3 = 4 CallArity = 2
+CONSTANTS MaxArity = 3 Len3 = 4 UnkLen2 = 3 UnkLen3 = 3 CallArity = 2
 INIT Init
 NEXT Next
 INVARIANT Emit
